@@ -80,6 +80,66 @@ def count_enc_uses(fn_hir, enc):
     return uses, in_loop
 
 
+def enc_uses_per_path(fn_hir, enc):
+    """set of encrypter-use counts over the control-flow paths of the body (error exits of `?` are not paths of interest);
+    loops containing a use are reported separately by count_enc_uses"""
+    def direct(x):
+        t = H.tag(x)
+        if t in ("call", "mcall"):
+            args = (x[3] if t == "call" else [x[6]] + x[7])
+            return any(H.local_name(H.strip_refs(a)) == enc for a in args)
+        return False
+
+    def seq(parts, states):
+        # states: set of (count, returned)
+        for part in parts:
+            nxt = set()
+            for (c, r) in states:
+                if r:
+                    nxt.add((c, r))
+                else:
+                    for (c2, r2) in go(part):
+                        nxt.add((c + c2, r2))
+            states = nxt
+        return states
+
+    def go(x):
+        if not isinstance(x, list):
+            return {(0, False)}
+        t = H.tag(x)
+        if t == "if":
+            out = set()
+            for (c, r) in go(x[1]):
+                if r:
+                    out.add((c, r))
+                    continue
+                branches = go(x[2]) | (go(x[3]) if x[3] is not None else {(0, False)})
+                out |= {(c + c2, r2) for (c2, r2) in branches}
+            return out
+        if t == "match":
+            out = set()
+            for (c, r) in go(x[1]):
+                if r:
+                    out.add((c, r))
+                    continue
+                for arm in x[3]:
+                    out |= {(c + c2, r2) for (c2, r2) in go(arm[2])}
+            return out
+        if t == "ret":
+            inner = go(x[1]) if len(x) > 1 and x[1] is not None else {(0, False)}
+            return {(c, True) for (c, _r) in inner}
+        if t == "closure":
+            # async blocks / boxed futures: the body runs once when awaited; a `return` inside ends the closure, not the caller
+            return {(c, False) for (c, _r) in go(x[3])} if len(x) > 3 else {(0, False)}
+        kids = [c for c in x if isinstance(c, list)]
+        st = seq(kids, {(0, False)})
+        if direct(x):
+            st = {(c + 1, r) for (c, r) in st}
+        return st
+
+    return sorted({c for (c, _r) in go(fn_hir)})
+
+
 def run(ctx):
     st = state()
     g = st["g"]
@@ -115,8 +175,10 @@ def run(ctx):
             d = first_diff(bu, be)
             ctx.violate("twin.enc-plain", f"{key}|twin", f"{e['path']} differs from its plain twin {u['name']} outside the header step: {d}", e["file"], e["line"])
         uses, in_loop = count_enc_uses(H.unwrap_async(e["hir"]), enc[0])
-        if uses != 1 or in_loop:
-            ctx.violate("cipher.step", f"{key}|enc-uses", f"{e['path']}: the encrypter is used {uses} time(s){' inside a loop' if in_loop else ''}; it must be stepped exactly once per message", e["file"], e["line"])
+        per_path = enc_uses_per_path(H.unwrap_async(e["hir"]), enc[0])
+        if per_path != [1] or in_loop:
+            ctx.violate("cipher.step", f"{key}|enc-uses", f"{e['path']}: the encrypter is used {' or '.join(str(c) for c in per_path)} time(s) depending on the path{' (inside a loop)' if in_loop else ''}; "
+                        "it must be stepped exactly once per message on every path", e["file"], e["line"])
     ctx.rule("twin.enc-plain", n_tw, floor=TWIN_FLOOR, note="encrypted/plain writer pairs (default trait methods per expansion x flavour and per-message overrides)")
     # (2)+(3) readers
     c02_frame.run_frame(ctx, want_cipher=True)
